@@ -528,7 +528,7 @@ def runNode (nodes : List Node) (sts : Sts) (rs : Ress) (nd : Node) : M (Sts × 
     let vx ← resolveField rs nd .x none
     let vy ← resolveField rs nd .y none
     let vz ← resolveField rs nd .z none
-    return (sts, { hasState := false, outs := [.list [.tag nd.name, vx, vy, vz]] })
+    return (sts, { hasState := false, outs := [nd.encode vx vy vz] })
   | some s =>
     let size := sizeOf nodes
     let s ← setInputGroups sts s
@@ -589,7 +589,7 @@ def runNode (nodes : List Node) (sts : Sts) (rs : Ress) (nd : Node) : M (Sts × 
             | none => throw (.crash .indexError)
           | _ => throw (.malformed "split-field-not-a-list")
         | none => resolveField rs nd f (idx.get? (nd.name, f))
-      return Val.list [.tag nd.name, ← val .x, ← val .y, ← val .z]
+      return nd.encode (← val .x) (← val .y) (← val .z)
     return (sts, { hasState := true, outs := outs, statesInd := statesInd, statesIndFinal := statesIndFinal,
                    indFinal := indFinal, keysFinal := keysFinal, comb := !s.comb.isEmpty })
 
@@ -602,6 +602,7 @@ def runNodes (nodes : List Node) (sts : Sts) (rs : Ress) : List Node → M Ress
 structure Result where
   outs : List Val
   jobs : List (Name × Nat)
+  jobOuts : List (Name × List Val) := []
   deriving Inhabited
 
 def run (w : Wf) : M Result := do
@@ -609,6 +610,6 @@ def run (w : Wf) : M Result := do
   let sts ← graphPass sts w.nodes
   let rs ← runNodes w.nodes sts [] w.nodes
   let outs ← w.outs.mapM fun o => do getValue (← rs.get o) none
-  return { outs := outs, jobs := rs.map fun (n, r) => (n, r.outs.length) }
+  return { outs := outs, jobs := rs.map fun (n, r) => (n, r.outs.length), jobOuts := rs.map fun (n, r) => (n, r.outs) }
 
 end PydraModel.WfState.Model
